@@ -622,8 +622,8 @@ class Live:
 
     def _mut_key(self):
         """Root-cause key of the last mutator: `field=` for set/same, else the entry point."""
-        k, _, f = self.last_mut.partition(":")
-        return f"{f}=" if k in ("set", "same") else self.last_mut
+        k, sep, f = self.last_mut.partition(":")
+        return f"{f}=" if sep and k in ("set", "same") else self.last_mut
 
     def _diagnose(self, what, got, cands):
         """No candidate matches the observation: work out the root-cause bucket."""
